@@ -7,9 +7,11 @@ package main
 // Monitor: kit.ScriptConn (virtual deadline) around the real handleNewTCPConn.
 
 import (
+	"context"
 	"fmt"
 	"math/rand"
 	"net"
+	"os/exec"
 	"sync"
 	"testing"
 	"time"
@@ -314,4 +316,153 @@ func TestVerifC03Probes(t *testing.T) {
 			rec.Violation("registry-changed-by-probes", "probing changed the set of registrations", map[string]interface{}{"registry": name, "before": len(regs), "after": got})
 		}
 	}
+}
+
+// ---- thorough: real TCP through acceptConnections in a network namespace ------------------------------
+// The orchestrator starts this test inside `unshare -n` (lo up).  An AnyIP route makes 198.51.100.0/24
+// local and a REDIRECT rule sends it to the station's fixed listener :41245, so the real
+// acceptConnections → handleNewConn → getOriginalDst (SO_ORIGINAL_DST) → handleNewTCPConn path runs with
+// the kernel in the loop.  Time is measured from BEFORE connect(), so load can only make the observed
+// interval longer: a close earlier than 5 s after that instant cannot come from a correct station.
+
+func TestVerifC03RealTCP(t *testing.T) {
+	rec := kit.NewRec("C03", "realtcp")
+	defer rec.Close()
+	run := func(name string, args ...string) error {
+		out, err := exec.Command(name, args...).CombinedOutput()
+		if err != nil {
+			return fmt.Errorf("%s %v: %v: %s", name, args, err, out)
+		}
+		return nil
+	}
+	if err := run("ip", "route", "add", "local", "198.51.100.0/24", "dev", "lo"); err != nil {
+		rec.Note("real-TCP sub-stage skipped: " + err.Error())
+		rec.Inconclusive("cannot set up the network namespace", err.Error())
+		return
+	}
+	if err := run("iptables", "-t", "nat", "-A", "OUTPUT", "-d", "198.51.100.0/24", "-p", "tcp", "-j", "REDIRECT", "--to-ports", "41245"); err != nil {
+		rec.Note("real-TCP sub-stage skipped: " + err.Error())
+		rec.Inconclusive("cannot set up the REDIRECT rule", err.Error())
+		return
+	}
+	// registrations on 198.51.100.7, none on 198.51.100.8
+	s := vNewStation(t, "c03tcp")
+	sharedLogger = s.rm.Logger
+	withRegs := net.ParseIP("198.51.100.7").To4()
+	rng := kit.Rand("c03-realtcp")
+	gen := &pb.GenericTransportParams{RandomizeDstPort: boolp(false)}
+	var regs []c03Reg
+	for _, sp := range []vRegSpec{
+		{Secret: vSecret(rng), TT: pb.TransportType_Min, Params: gen, LibVer: 4, Phantom: withRegs, Covert: "127.0.0.1:9"},
+		{Secret: vSecret(rng), TT: pb.TransportType_Obfs4, Params: gen, LibVer: 4, Phantom: withRegs, Covert: "127.0.0.1:9"},
+		{Secret: vSecret(rng), TT: pb.TransportType_Prefix, Params: vPrefixParams(prefix.GetLong, false, 0), LibVer: 4, Phantom: withRegs, Covert: "127.0.0.1:9"},
+	} {
+		if _, err := s.vAdmit(sp); err != nil {
+			t.Fatal(err)
+		}
+		fl, err := s.vFlight(sp)
+		if err != nil {
+			t.Fatal(err)
+		}
+		regs = append(regs, c03Reg{sp, fl})
+	}
+	ctx, cancel := context.WithCancel(context.Background())
+	defer cancel()
+	go s.cm.acceptConnections(ctx, s.rm, s.rm.Logger)
+	// wait for the listener
+	if !vWaitFor(20*time.Second, func() bool {
+		c, err := net.DialTimeout("tcp", "127.0.0.1:41245", time.Second)
+		if err == nil {
+			c.Close()
+		}
+		return err == nil
+	}) {
+		rec.Inconclusive("station listener did not come up", nil)
+		return
+	}
+	type probe struct {
+		dst   string
+		kind  string
+		data  []byte
+		pause bool
+	}
+	var probes []probe
+	rb := func(n int) []byte { b := make([]byte, n); rng.Read(b); return b }
+	n := 64
+	for i := 0; i < n; i++ {
+		dst := "198.51.100.7:443"
+		if i%4 == 3 {
+			dst = "198.51.100.8:443"
+		}
+		switch i % 6 {
+		case 0:
+			probes = append(probes, probe{dst, "random-32", rb(32), false})
+		case 1:
+			probes = append(probes, probe{dst, "random-8192", rb(8192), true})
+		case 2:
+			probes = append(probes, probe{dst, "http-lookalike", []byte("GET / HTTP/1.1\r\nHost: example.com\r\n\r\n"), false})
+		case 3:
+			r := regs[i%len(regs)]
+			from, to, skip := c03TagBits(r)
+			bit := from + rng.Intn(to-from)
+			for skip[bit] {
+				bit = from + rng.Intn(to-from)
+			}
+			probes = append(probes, probe{dst, "bitflip:" + r.spec.TT.String(), flipBit(r.flight, bit), true})
+		case 4:
+			probes = append(probes, probe{dst, "silent", nil, false})
+		case 5:
+			probes = append(probes, probe{dst, "random-16384", rb(16384), true})
+		}
+	}
+	var wg sync.WaitGroup
+	for i, p := range probes {
+		wg.Add(1)
+		go func(i int, p probe) {
+			defer wg.Done()
+			label := fmt.Sprintf("#%d dst=%s kind=%s len=%d", i, p.dst, p.kind, len(p.data))
+			t0 := time.Now() // before connect()
+			c, err := net.DialTimeout("tcp", p.dst, 20*time.Second)
+			if err != nil {
+				rec.Inconclusive("connect failed", map[string]interface{}{"probe": label, "err": err.Error()})
+				return
+			}
+			defer c.Close()
+			if p.pause && len(p.data) > 100 {
+				c.Write(p.data[:37])
+				time.Sleep(150 * time.Millisecond)
+				c.Write(p.data[37:])
+			} else if len(p.data) > 0 {
+				c.Write(p.data)
+			}
+			c.SetReadDeadline(time.Now().Add(45 * time.Second))
+			buf := make([]byte, 4096)
+			got := 0
+			var rerr error
+			for {
+				k, err := c.Read(buf)
+				got += k
+				if err != nil {
+					rerr = err
+					break
+				}
+			}
+			el := time.Since(t0)
+			if got > 0 {
+				rec.Violation("realtcp:wrote-to-unauthenticated-peer", "the station sent bytes to a connection that never presented a valid tag", map[string]interface{}{"probe": label, "bytes": got})
+			}
+			if kit.IsTimeout(rerr) {
+				rec.Inconclusive("the station had not closed the connection 45 s after connect", label)
+			} else if el < 5*time.Second {
+				rec.Violation("realtcp:closed-early", "the station closed (FIN/RST) an unauthenticated connection earlier than 5 s after the client started to connect",
+					map[string]interface{}{"probe": label, "after_ms": el.Milliseconds(), "read_error": fmt.Sprint(rerr)})
+			}
+			rec.Count("evaluations", 1)
+			rec.Distinct("nontrivial", p.dst, p.kind, len(p.data))
+			if rec.WantSample() {
+				rec.Sample(map[string]interface{}{"probe": label, "closed_after_ms": el.Milliseconds(), "bytes_received": got, "read_error": fmt.Sprint(rerr)})
+			}
+		}(i, p)
+	}
+	wg.Wait()
 }
